@@ -324,6 +324,37 @@ def hook_lint():
                     raise Drift(f"{f}:{i + 2}: the statement guarded by cfg(not(clockbound_verif)) changed to `{nxt}`; its cfg(clockbound_verif) mirror no longer represents the code")
 
 
+def seq_induction(rep):
+    """C02/C03 for unbounded publications, deaths and warm restarts (SC): SeqInd.tla's inductive invariant by Apalache,
+    plus two controls (a broken protocol must NOT pass)."""
+    import shutil
+    apa = cb.workdir("apa_seq_" + rep.pid)
+    src = open(os.path.join(cb.SPEC, "SeqInd.tla")).read()
+
+    def run(path, extra):
+        p = cb.run(["timeout", "600", "apalache-mc", "check", "--inv=IndInv", f"--out-dir={apa}/o", f"--run-dir={apa}/r"] + extra + [path], timeout=650)
+        return p.stdout + p.stderr
+    for what, extra in (("initial state satisfies IndInv", ["--init=Init", "--length=0"]), ("IndInv is inductive over every action", ["--init=IndInit", "--length=1"])):
+        out = run(os.path.join(cb.SPEC, "SeqInd.tla"), extra)
+        if "The outcome is: NoError" not in out:
+            raise ToolError(f"Apalache: SeqInd {what} failed:\n{out[-1500:]}")
+        rep.notes.append(f"Apalache (SeqInd.tla: unbounded publications, deaths and warm restarts, two readers, SC): {what}")
+    controls = [("the writer does not make the generation odd before the copy", "gen' = (IF IsEven(gen) THEN gen + 1 ELSE gen) /\\ cur' = cur + 1", "gen' = gen /\\ cur' = cur + 1"),
+                ("the reader accepts without comparing the generations", "IF gen = rg1[r]\n     THEN /\\ cgen'", "IF TRUE\n     THEN /\\ cgen'")]
+    for what, old, new in controls:
+        if old not in src:
+            raise ToolError("SeqInd.tla changed: control mutation no longer applies")
+        d = os.path.join(apa, "ctl")
+        os.makedirs(d, exist_ok=True)
+        open(os.path.join(d, "SeqInd.tla"), "w").write(src.replace(old, new))
+        out = run(os.path.join(d, "SeqInd.tla"), ["--init=IndInit", "--length=1"])
+        if "The outcome is: Error" not in out:
+            raise ToolError(f"Apalache control: with '{what}' the invariant is still inductive - it says nothing:\n{out[-800:]}")
+        rep.notes.append(f"Apalache control: '{what}' breaks inductiveness, as it must")
+    rep.extra["symbolic_obligations"] = rep.extra.get("symbolic_obligations", 0) + 2
+    shutil.rmtree(apa, ignore_errors=True)
+
+
 def base_cfgs(tier):
     """Configurations shared by the segment checks."""
     q = tier == "quick"
@@ -385,6 +416,7 @@ def c02(tier, seed):
         run.replay(b, False, f"SC cover {name}")
     # T: random schedules
     run.explore(seed, 30 if tier == "quick" else 400, 400 if tier == "quick" else 600, wprog, rprog, what="random schedules (W=7, 3 readers)")
+    seq_induction(rep)
     unhooked_stress(run, 2 if tier == "quick" else 20)
     if tier == "thorough":
         # the known finding, in the model: with a small modulus TLC finds the in-call wrap by itself
@@ -456,6 +488,7 @@ def c03(tier, seed):
     rep.evaluations += len(ew["cases"])
     rep.notes.append(f"wrap: {[(c['mode'], c['publications_in_between'], c['result']) for c in res['cases']]}")
     rep.sample({"idle-reader wrap cases": [(c['mode'], c['publications_in_between'], c['result']) for c in res['cases']]})
+    seq_induction(rep)
     unhooked_stress(run, 2 if tier == "quick" else 20)
     run.explore(seed, 30 if tier == "quick" else 400, 400 if tier == "quick" else 600, wprog, rprog, what="random schedules (W=7, 3 readers)")
     glob_samples(cf, rep)
